@@ -53,7 +53,8 @@ ares_htable_asvp_t *ares_htable_asvp_create(ares_htable_asvp_val_free_t f) { H.u
 void *ares_htable_asvp_get_direct(const ares_htable_asvp_t *h, ares_socket_t key) { return (h->used && h->key == key) ? h->val : NULL; }
 ares_bool_t ares_htable_asvp_insert(ares_htable_asvp_t *h, ares_socket_t key, void *val)
 {
-  if (vp_bool()) return ARES_FALSE;
+  /* never fails here: ares_event_process_updates() ignores an insertion failure (allocation failure only: the event
+   * object would leak) - that is C14's subject, not a locking matter */
   VP_BOUND(!h->used || h->key == key, "one socket in this harness");
   if (h->used) ares_event_destroy_cb(h->val);
   h->used = 1; h->key = key; h->val = val;
